@@ -130,10 +130,14 @@ def gen_sdl(seed, idx):
         "%sinput Box {\n  pt: Pt! = {x: 7}\n  tags: [String!]\n"
         "  shade: Color = GREEN\n}" % _desc(r))
 
+    # a small palette of argument kinds per schema, so that several fields
+    # declare the same argument names (with or without defaults)
+    palette = r.sample(sorted(DEFAULTS), 4)
+
     def args():
-        n = r.choice((0, 0, 1, 2, 3))
+        n = r.choice((0, 0, 1, 1, 2, 3))
         parts = []
-        names = r.sample(sorted(DEFAULTS), n)
+        names = r.sample(palette, n)
         described = r.random() < 0.25
         for t in names:
             a = "a_%s: %s" % (t.strip("[]!").lower() + ("s" if "[" in t
